@@ -138,6 +138,35 @@ def build(tree):
                         obj[s].list()
             except BaseException:                       # pylint: disable=W0703
                 pass
+    if tree.get("pre") == 4:
+        # a tree that shrinks between a listing and an export: every non-empty scheduler first
+        # holds one more job, behind all its members (its only exit); everything is listed
+        # (which computes back-links and exits at every level), the extra jobs are taken out
+        # again (nobody requires them: the tree stays closed), and the export is judged on
+        # what is left
+        extras = []
+        for s in range(1, n + 1):
+            if tree["kind"][s - 1] == "sched" and kids[s]:
+                x = DJob.__new__(DJob)
+                x._vhash = max(hashes) + 1 + s
+                AbstractJob.__init__(x, label="extra%d" % s)
+                for k in kids[s]:
+                    x.requires(obj[k])
+                obj[s].add(x)
+                extras.append((s, x))
+        sink = io.StringIO()
+        with contextlib.redirect_stdout(sink):
+            try:
+                obj[1].list()
+                for s in range(2, n + 1):
+                    if tree["kind"][s - 1] == "sched":
+                        obj[s].list()
+                        obj[s].exit_jobs()
+                        obj[s].entry_jobs()
+            except BaseException:                       # pylint: disable=W0703
+                pass
+        for s, x in extras:
+            obj[s].remove(x)
     return obj
 
 
